@@ -117,6 +117,8 @@ def exec_for(ex, s, st):
     if getattr(it, "parallel", False):
         ex.ctx.notes.append(f"prange loop at {ex.where(s)} executed as sequential loop (ownership obligations separately)")
     concrete = all(isinstance(x, int) for x in (lo, hi))
+    if spec is None and ex.ctx.options.get("loop_summaries") and (not concrete or len(range(lo, hi, step)) > ex.ctx.options.get("unroll_limit", 4)):
+        return summarise_loop(ex, s, st, ordn, lo, hi, step, elem_of)
     if spec is None and ex.ctx.options.get("auto_cut"):
         # index-abstraction contracts: loops without a sidecar invariant are cut with the empty invariant
         # (only the loop range is known in the body); short literal loops are still unrolled
@@ -363,3 +365,109 @@ def run_hints(ex, st, spec, idxname, k, where):
             st.env[idxname] = saved
         else:
             st.env.pop(idxname, None)
+
+
+def _read_names(s):
+    names = set()
+    for n in ast.walk(s):
+        if isinstance(n, ast.Name) and isinstance(n.ctx, ast.Load):
+            names.add(n.id)
+    return names
+
+
+def _flatten(ex, st, v, out):
+    from .libmodels import restrict
+    if isinstance(v, Arr):
+        out.append(restrict(ex, st, v))
+        for d in v.shape:
+            out.append(zint(d))
+    elif isinstance(v, (Tup, PList)):
+        for x in v.items:
+            _flatten(ex, st, x, out)
+    elif isinstance(v, bool):
+        out.append(z3.BoolVal(v))
+    elif isinstance(v, int):
+        out.append(z3.IntVal(v))
+    elif ex.isfloat(v):
+        out.append(ex.tofloat(v))
+    elif z3.is_expr(v):
+        out.append(v)
+    # None / strings / function references: constants of the source, identical in every run
+
+
+def summarise_loop(ex, s, st, ordn, lo, hi, step, elem_of):
+    """Relational mode (model U): a loop is a deterministic function of the values it reads.  Every variable and
+    array the loop writes gets, after the loop, the value  LoopFn_<ordinal>_<name>(entry values of everything the loop reads).
+    Two runs that enter the loop with equal (in-range) values leave it with equal values.  Sound because the body is
+    deterministic; nothing else is assumed about the loop."""
+    if any(isinstance(n, ast.Return) for b in s.body for n in ast.walk(b)):
+        raise Unsupported("loop summary of a loop that returns")
+    assigned, stored = scan_modified(s.body)
+    if isinstance(s.target, ast.Name):
+        assigned.add(s.target.id)
+    reads = _read_names(s) | assigned | stored
+    args = [zint(lo), zint(hi)]
+    for nm in sorted(reads):
+        if nm in st.env:
+            _flatten(ex, st, st.env[nm], args)
+    # probe run to learn the types of what the loop leaves behind (obligations suppressed)
+    probe = st.copy()
+    havoc(ex, probe, assigned, stored)
+    k = fresh("probe", z3.IntSort())
+    if elem_of is not None:
+        bind_target(ex, s, probe, ex.read(probe, elem_of, (k,), s, check=False))
+    else:
+        probe.env[s.target.id] = k
+    saved = ex.ctx.obls
+    ex.ctx.obls = []
+    try:
+        types = {}
+        for cur, oc in ex.exec_block(s.body, probe):
+            for nm in assigned:
+                if nm in cur.env and nm not in types:
+                    types[nm] = cur.env[nm]
+    finally:
+        ex.ctx.obls = saved
+    fkey = (ex.c.key, ordn)
+
+    def loopfn(tag, sort):
+        key = ("loop", fkey, tag, tuple(a.sort().sexpr() for a in args), sort.sexpr())
+        f = ex.ctx.valfn.get(key)
+        if f is None:
+            f = z3.Function(f"loop!{ordn}!{tag}!{len(ex.ctx.valfn)}", *[a.sort() for a in args], sort)
+            ex.ctx.valfn[key] = f
+        return f(*args)
+
+    def summarise_value(nm, v, tag):
+        if isinstance(v, Arr):
+            if v.view is not None:
+                return v
+            a = ex.new_array(st, v.shape, v.dtype, None, nm)
+            st.heap[a.oid] = loopfn(tag, ex.ctx.arr_sort(v.dtype, v.ndim))
+            return a
+        if isinstance(v, (Tup, PList)):
+            return type(v)([summarise_value(nm, x, f"{tag}.{i}") for i, x in enumerate(v.items)])
+        if isinstance(v, bool) or (z3.is_expr(v) and v.sort() == z3.BoolSort()):
+            return loopfn(tag, z3.BoolSort())
+        if isinstance(v, int) or (z3.is_expr(v) and v.sort() == z3.IntSort()):
+            return loopfn(tag, z3.IntSort())
+        if ex.isfloat(v):
+            return loopfn(tag, ex.fm.sort)
+        return v
+
+    for nm in sorted(assigned):
+        v = types.get(nm, st.env.get(nm))
+        if v is None:
+            continue
+        st.env[nm] = summarise_value(nm, v, nm)
+    done = set()
+    for nm in sorted(stored):
+        v = st.env.get(nm)
+        if isinstance(v, Arr):
+            root = v.root()
+            if root.oid in done:
+                continue
+            done.add(root.oid)
+            st.heap[root.oid] = loopfn(nm + "[]", ex.ctx.arr_sort(root.dtype, root.ndim))
+    ex.ctx.notes.append(f"loop #{ordn} at {ex.where(s)} summarised as a deterministic function of {len(args)} entry values (relational mode)")
+    return [(st, Outcome(NORMAL))]
